@@ -78,6 +78,9 @@ func writeEvidence(p Property, tier string, seed uint64, st *Stats, violations i
 		"components":                           realVsStub,
 		"workers":                              workers,
 	}
+	if raceInfo != nil {
+		cov["race_stage"] = raceInfo
+	}
 	ev := map[string]interface{}{
 		"property_id": p.ID(),
 		"tier":        tier,
